@@ -21,7 +21,7 @@ pub struct VcDiff;
 pub enum DiffCase {
     /// n expectations (regex alternations realising row masks), m distinct lines
     Matrix { n: usize, m: usize, bits: u64, quants: Vec<Quant> },
-    /// expectations from a small word alphabet of all rule kinds, lines over {a, b, empty line, a<CR>}
+    /// expectations from a small word alphabet of all rule kinds, lines over {a, b, empty line, a<CR>, <CR>}
     Words { exps: Vec<(usize, Quant)>, lines: Vec<usize>, last_newline: bool },
     /// the documented non-deterministic example (`foo (*)`, `foo` on two `foo` lines)
     DocumentedNonExample,
@@ -42,7 +42,8 @@ pub const WORD_EXPS: [(&str, &str); 9] = [
     ("*", "glob"),
 ];
 // (with the empty line: output that consists of nothing but line terminators is output, too)
-pub const WORD_LINES: [&str; 4] = ["a", "b", "", "a\r"];
+// (a lone CR: the line CR LF, and - as last line without terminator - an output that ends in a bare CR after a line feed)
+pub const WORD_LINES: [&str; 5] = ["a", "b", "", "a\r", "\r"];
 
 thread_local! {
     static MAKER: ExpectationMaker = ExpectationMaker::new(RuleRegistry::default());
@@ -273,8 +274,8 @@ impl Engine for VcDiff {
 
     fn bound(&self, tier: Tier) -> String {
         match tier {
-            Tier::Quick => "all 2^(n*m) match matrices x 4^n quantifier vectors for (n,m) in {<=3x3, 4x1, 1x4, 4x2, 2x4, 4x3, 3x4}; all expectation words <=2 over 9 rule-kind atoms x 4 quantifiers x all outputs <=3 lines over {a, b, empty line, a<CR>} with/without final newline".into(),
-            Tier::Thorough => "all 2^(n*m) match matrices x 4^n quantifier vectors for all n,m<=4 plus every (n,m) with n*m<=15, n,m<=6; all expectation words <=3 over 9 rule-kind atoms x 4 quantifiers x all outputs <=4 lines over {a, b, empty line, a<CR>} with/without final newline".into(),
+            Tier::Quick => "all 2^(n*m) match matrices x 4^n quantifier vectors for (n,m) in {<=3x3, 4x1, 1x4, 4x2, 2x4, 4x3, 3x4}; all expectation words <=2 over 9 rule-kind atoms x 4 quantifiers x all outputs <=3 lines over {a, b, empty line, a<CR>, <CR>} with/without final newline".into(),
+            Tier::Thorough => "all 2^(n*m) match matrices x 4^n quantifier vectors for all n,m<=4 plus every (n,m) with n*m<=15, n,m<=6; all expectation words <=3 over 9 rule-kind atoms x 4 quantifiers x all outputs <=4 lines over {a, b, empty line, a<CR>, <CR>} with/without final newline".into(),
         }
     }
 
